@@ -25,9 +25,17 @@ def hparse(api: ParseAPI, pub_prv: str, key_type: str, s: str) -> Any:
     prefix = getattr(api, attr_name, None)
     if data is None or prefix is None or not data.startswith(prefix):
         return None
+    # BIP32: 4-byte version, depth, 4-byte fingerprint, 4-byte child index,
+    # 32-byte chain code and 33 bytes of key data: 78 bytes
+    if len(data) != 78:
+        return None
     parse_method_name = "%s_deserialize" % key_type
     parse_method = getattr(api._network.keys, parse_method_name, lambda *args: None)
-    return parse_method(data)
+    try:
+        return parse_method(data)
+    except ValueError:
+        # secret exponent out of range, or bad or off-curve sec
+        return None
 
 
 class ParseAPI(object):
